@@ -81,6 +81,12 @@ unsigned genCode(const std::string& kind, unsigned T, uint64_t i, uint64_t& stat
   if (kind == "roundrobin") return static_cast<unsigned>((i + state) % T);
   if (kind == "sawtooth") { uint64_t p = i % (2 * T); return static_cast<unsigned>(p < T ? p : 2 * T - 1 - p); }
   if (kind == "skew") { state = state * 6364136223846793005ull + 1442695040888963407ull; uint64_t r = (state >> 33) % 1000; return static_cast<unsigned>(r < 900 ? (r % 3) % T : (state >> 43) % T); }
+  if (kind == "dom") {
+    // one symbol far ahead of all the others (count differences beyond 2^15), then pseudo-random symbols
+    if (i < 40000) return static_cast<unsigned>(state % T);
+    uint64_t x = (i * 6364136223846793005ull + state * 1442695040888963407ull + 12345) ;
+    return static_cast<unsigned>((x >> 33) % T);
+  }
   if (kind == "fib") {
     // Fibonacci-like weights 200, 304, 504, 808, ... on symbols 0, 1, 2, ... (the deepest tree a history within capacity can build)
     uint64_t a = 200, b = 304, lo = 0; unsigned sym = 0;
